@@ -2090,6 +2090,78 @@ def decision_leaves(prog, f, depth=4, out=None, sites=None, _seen=None):
 
 
 
+def reach_from_cp(f, starts, avoid_exit=(), avoid_enter=(), max_states=20000):
+    """Fn.reach_from with a little path sensitivity: integer / bool constants assigned to whole locals (`flag = true`, copies of
+    such locals, `Not` of them) are tracked along each path, and a switch on a local whose value is known on that path takes
+    only the matching edge.  Decides the correlated-condition idiom
+        let required = !only_if || found();   if !required { return .. }
+    (the early return is unreachable on the path where `only_if` was false).  Over-approximates like reach_from otherwise."""
+    avoid_exit, avoid_enter = set(avoid_exit), set(avoid_enter)
+    seen = set()
+    out = set()
+    work = []
+    for st in starts:
+        if st not in avoid_enter:
+            work.append((st, frozenset()))
+    n = 0
+    while work:
+        bb, env = work.pop()
+        if (bb, env) in seen:
+            continue
+        seen.add((bb, env))
+        out.add(bb)
+        n += 1
+        if n > max_states:
+            return f.reach_from(starts, avoid_exit=avoid_exit, avoid_enter=avoid_enter)
+        if bb in avoid_exit:
+            continue
+        e = dict(env)
+        b = f.blocks[bb]
+        for s in b['s']:
+            if s['k'] != 'a':
+                continue
+            d = s['d']
+            if d[1]:
+                continue
+            r = s['r']
+            val = None
+            if r['k'] == 'use':
+                k = op_const(r['o'])
+                if k is not None and isinstance(k, dict) and 'int' in k:
+                    val = int(k['int'])
+                else:
+                    l = op_local(r['o'])
+                    if l is not None and l in e:
+                        val = e[l]
+            elif r['k'] == 'un' and r.get('op') == 'Not':
+                l = op_local(r['o'])
+                if l is not None and l in e and e[l] in (0, 1):
+                    val = 1 - e[l]
+            if val is None:
+                e.pop(d[0], None)
+            else:
+                e[d[0]] = val
+        t = b['t']
+        if t['k'] == 'call' and t.get('d') and not t['d'][1]:
+            e.pop(t['d'][0], None)
+        succ = list(f.succ[bb])
+        if t['k'] == 'switch':
+            l = op_local(t['o'])
+            if l is not None and l in e:
+                tg = None
+                for v, x in t['vals']:
+                    if v == e[l]:
+                        tg = x
+                if tg is None:
+                    tg = t['otherwise']
+                succ = [tg] if tg in f.succ[bb] else []
+        env2 = frozenset(e.items())
+        for x in succ:
+            if x not in avoid_enter:
+                work.append((x, env2))
+    return out
+
+
 def loop_depth(f, bb):
     """number of natural loops of `f` (back edge u -> h with h dominating u) whose body contains `bb`"""
     cache = getattr(f, '_loops', None)
